@@ -35,6 +35,9 @@ func ControlsFor(prop string) []Control {
 // Overlay builds the overlay map; skipped != "" when the snippet is absent (tree was edited).
 func (c Control) Overlay(repo string) (map[string][]byte, string, error) {
 	path := filepath.Join(repo, c.File)
+	if filepath.IsAbs(c.File) {
+		path = c.File
+	}
 	b, err := os.ReadFile(path)
 	if err != nil {
 		return nil, "file missing: " + c.File, nil
